@@ -120,8 +120,9 @@ def check_module(m, objsizes=None):
     defs = {}
     for kind, o in m.order:
         if kind in ('data', 'func'):
-            if o.name in defs:
-                out.append(V('sym-redef', None, o.line, 'symbol $%s defined twice' % o.name))
+            if o.name in defs and o.name not in getattr(m, 'quoted', ()):
+                # two C entities given the same __asm__ label are the program's own conflict
+                out.append(V('sym-redef', None, o.line, 'symbol $%s defined twice' % o.name, True))
             defs[o.name] = (kind, o)
     funcs = {f.name: f for f in m.funcs}
     # --- data
